@@ -58,6 +58,8 @@ ZOO_SCALARS = [
     # 3.11: 14.0, 3.12: 15.0, 3.13: 15.1/16.0)
     "'\\ud800\\U0001fa70'", "'\\udc80\\U0001fad0'", "'\\U0001fae0\\udfff'", "'\\ud800 \\U0001fae8 \\u0cf3'", "'\\udc00\\U0001fae9'",
     "'caf\\xe9 \\udc80.txt'", "'\\U0001fad0'", "'\\U0001fae9 \\u1c89'",
+    # a lone surrogate in a string that begins/ends with quote characters or backslashes
+    "'\\udc80\\''", "'\\'\\udc80'", "'\"\\udc80\"'", "'\\'\\udc80\"'", "'\\udc80\\\\'", "'\\\\\\udc80'", "'\\'\\'\\udc80\\'\\''",
 ]
 ZOO_SCALARS = [s if s != "complex_neg" else "-(0.0+1j)" for s in ZOO_SCALARS]
 
@@ -108,10 +110,16 @@ def const_src(rng, depth=2):
     return "(" + ", ".join(items) + ")"
 
 
+NAN_SPELLINGS = ["(1e999-1e999)", "-(1e999-1e999)", "(1e999*0)", "(1e999-1e999)*1j", "((1e999-1e999), 1)"]
+
+
 def frozenset_test_src(rng, depth=1):
     """`name in {c, ...}` -- compiles to a frozenset constant (elements scalars or tuples)."""
     n = rng.choice([1, 2, 2, 3, 3, 4, 6])
     items = [const_src(rng, depth) for _ in range(n)]
+    if rng.chance(0.12):
+        # several DISTINCT NaN objects in one set (each spelling folds to its own object)
+        items += rng.sample(NAN_SPELLINGS, rng.randint(2, 3))
     return "{" + ", ".join(items) + "}"
 
 
